@@ -186,7 +186,7 @@ parser! {
             = d:$(ident()) { Directive::from_str(d) }
 
         pub rule directive() -> Directive
-            = ("." / "#" ) d_name:$(['a'..='z']+) {
+            = ("." / "#" ) d_name:$(['a'..='z']+) !char_ident() {
             if let Ok(Ok(d)) = document::standard_directive(d_name.to_lowercase().as_str()) {
                 d
             } else {
